@@ -265,4 +265,74 @@ THEOREM BlindsOnTheNextPlayers ==
   BY <1>16, <1>17
 <1> HIDE DEF s1, kSB, sb, s3, kBB, bb, t
 <1> QED BY <1>5, <1>14, <1>15, <1>18, <1>19, <1>20, <1>21
+
+\* heads-up (exactly two seats can play): the dealer is the small blind, the other player the big blind
+THEOREM HeadsUpBlinds ==
+  ASSUME NEW m, m.max \in Nat \ {0}, m.dealer \in 0..(m.max - 1),
+         m = [max |-> m.max, seat |-> m.seat, dealer |-> m.dealer, sb |-> m.sb, bb |-> m.bb, crashed |-> m.crashed],
+         m.dealer \in PlayableSet(m),
+         Cardinality(PlayableSet(m)) = 2,
+         NEW x \in PlayableSet(m), x # m.dealer
+  PROVE  LET r == RenewOnce(m) IN
+         /\ r.sb = m.dealer
+         /\ r.bb \in PlayableSet(m) /\ r.bb # m.dealer
+         /\ \A z \in PlayableSet(m) : z # m.dealer => (r.bb - m.dealer) % m.max <= (z - m.dealer) % m.max
+<1> DEFINE n == m.max
+           dl == m.dealer
+           s3 == After(m, dl)
+           kBB == FindActive(m, s3)
+           bb == s3[kBB]
+           P == PlayableSet(m)
+<1>0. n \in Nat \ {0} /\ dl \in 0..(n - 1) /\ \A z \in P : z \in 0..(n - 1) /\ Playable(m, z)
+  BY DEF PlayableSet, SeatIds
+<1>1. Len(s3) = n - 1 /\ \A j \in 1..(n - 1) : s3[j] = (dl + j) % n
+  BY AfterLen, AfterAt
+<1>2. /\ kBB \in 0..(n - 1)
+      /\ (kBB = 0) <=> (\A j \in 1..(n - 1) : ~Playable(m, s3[j]))
+      /\ (kBB # 0) => (Playable(m, s3[kBB]) /\ \A j \in 1..(kBB - 1) : ~Playable(m, s3[j]))
+  <2>1. n - 1 \in Nat
+    OBVIOUS
+  <2> QED BY <1>1, <2>1, FindActiveSpec
+<1>3. \A z \in P : z # dl => ((z - dl) % n \in 1..(n - 1) /\ s3[(z - dl) % n] = z)
+  <2> SUFFICES ASSUME NEW z \in P, z # dl PROVE (z - dl) % n \in 1..(n - 1) /\ s3[(z - dl) % n] = z
+    OBVIOUS
+  <2>1. z \in 0..(n - 1)
+    BY <1>0
+  <2> HIDE DEF s3, P
+  <2> QED BY <2>1, <1>0, <1>1, DistTo
+<1>4. kBB \in 1..(n - 1)
+  <2> HIDE DEF s3, kBB
+  <2> QED BY <1>0, <1>2, <1>3
+<1>5. bb = (dl + kBB) % n /\ bb \in 0..(n - 1) /\ bb # dl /\ (bb - dl) % n = kBB /\ Playable(m, bb)
+  <2> HIDE DEF s3, kBB
+  <2> QED BY <1>0, <1>1, <1>2, <1>4, WalkFrom
+<1>6. \A z \in P : z # dl => kBB <= (z - dl) % n
+  <2> SUFFICES ASSUME NEW z \in P, z # dl PROVE kBB <= (z - dl) % n
+    OBVIOUS
+  <2>0. PICK j \in Int : j = (z - dl) % n
+    BY <1>3
+  <2>1. j \in 1..(n - 1) /\ s3[j] = z /\ Playable(m, z)
+    BY <2>0, <1>3, <1>0
+  <2> HIDE DEF s3, kBB, P
+  <2>2. ~(j \in 1..(kBB - 1))
+    BY <2>1, <1>2, <1>4
+  <2> QED BY <2>0, <2>1, <2>2, <1>4
+<1>7. RenewOnce(m).sb = dl /\ RenewOnce(m).bb = bb
+  <2> DEFINE orig == Norm(m, m.dealer)
+             kb == CHOOSE k \in 1..Len(orig) : orig[k] = bb
+             deact == {orig[k] : k \in 1..(kb - 1)} \cap {s \in SeatIds(m) : m.seat[s].player = NULL}
+             m1 == SetActive(m, deact, FALSE)
+             m2 == SetActive(m1, SeqSet(From(From(s3, kBB), 2)), TRUE)
+  <2>1. RenewOnce(m) = [m2 EXCEPT !.sb = dl, !.bb = bb]
+    BY <1>4 DEF RenewOnce, After
+  <2>2. m2 = [max |-> m.max, seat |-> m2.seat, dealer |-> m.dealer, sb |-> m.sb, bb |-> m.bb, crashed |-> m.crashed]
+    BY DEF SetActive
+  <2> HIDE DEF m2, bb
+  <2> QED BY <2>1, <2>2
+<1>8. bb \in P
+  BY <1>5 DEF PlayableSet, SeatIds
+<1>9. \A z \in P : z # dl => (bb - dl) % n <= (z - dl) % n
+  BY <1>5, <1>6
+<1> HIDE DEF s3, kBB, bb
+<1> QED BY <1>5, <1>7, <1>8, <1>9
 =============================================================================
